@@ -1,6 +1,7 @@
 package vc
 
 import (
+	"runtime"
 	"bufio"
 	"encoding/json"
 	"flag"
@@ -158,7 +159,11 @@ func CmdCheck(args []string) int {
 	}
 	work := filepath.Join(verifDir, "work", *prop)
 	os.RemoveAll(work)
-	cfg := SolverCfg{Timeout: timeout, WorkDir: work, Parallel: 16, Solvers: []string{"z3new", "z3", "cvc5"}, Seed: seed}
+	par := runtime.NumCPU() / 2
+	if par < 2 {
+		par = 2
+	}
+	cfg := SolverCfg{Timeout: timeout, WorkDir: work, Parallel: par, Solvers: []string{"z3new", "z3", "cvc5"}, Seed: seed}
 
 	var all []*Obligation
 	var covers []*Obligation
@@ -200,6 +205,22 @@ func CmdCheck(args []string) int {
 	}
 	t2 := time.Now()
 	Discharge(all, cfg)
+	// second stage: an obligation without a definitive answer (time-out on a loaded machine) is
+	// retried nearly alone with four times the budget before anything is reported about it
+	var again []*Obligation
+	for _, o := range all {
+		if o.Status == "unknown" {
+			again = append(again, o)
+		}
+	}
+	retried := len(again)
+	if len(again) > 0 {
+		rcfg := cfg
+		rcfg.Timeout = 4 * timeout
+		rcfg.Parallel = 3
+		rcfg.Seed = seed + 1
+		Discharge(again, rcfg)
+	}
 	solveS := time.Since(t2).Seconds()
 	// cover (vacuity) probes: "false" must NOT be provable at the exits
 	ccfg := cfg
@@ -215,7 +236,7 @@ func CmdCheck(args []string) int {
 	}
 
 	known, fixed := loadKnown(filepath.Join(verifHome, "known_findings.txt"))
-	baseline := loadBaseline(filepath.Join(verifHome, "baseline_obligations.json"))
+	baseline := loadBaseline(filepath.Join(verifHome, "baseline", *prop+".json"))
 	inBaseline := map[string]bool{}
 	for _, n := range baseline[*prop] {
 		inBaseline[n] = true
@@ -282,7 +303,7 @@ func CmdCheck(args []string) int {
 		}
 		sort.Strings(ok)
 		baseline[*prop] = ok
-		saveBaseline(filepath.Join(verifHome, "baseline_obligations.json"), baseline)
+		saveBaseline(filepath.Join(verifHome, "baseline", *prop+".json"), map[string][]string{*prop: ok})
 	}
 
 	var assumptions []string
@@ -348,8 +369,8 @@ func CmdCheck(args []string) int {
 	for _, v := range vacuous {
 		fmt.Printf("UNDECIDED property=%s vacuous: false is provable at %s\n", *prop, v)
 	}
-	fmt.Printf("property=%s tier=%s functions=%d obligations=%d discharged=%d known=%d violations=%d undecided=%d wall=%.1fs (load %.1fs, vcgen %.1fs, solve %.1fs)\n",
-		*prop, *tier, len(funcs), counted, discharged, len(knownHit), len(violations), len(undecided)+len(toolErrs)+len(vacuous), time.Since(t0).Seconds(), loadS, genS, solveS)
+	fmt.Printf("property=%s tier=%s functions=%d obligations=%d discharged=%d known=%d violations=%d undecided=%d retried=%d wall=%.1fs (load %.1fs, vcgen %.1fs, solve %.1fs)\n",
+		*prop, *tier, len(funcs), counted, discharged, len(knownHit), len(violations), len(undecided)+len(toolErrs)+len(vacuous), retried, time.Since(t0).Seconds(), loadS, genS, solveS)
 	if len(violations) > 0 {
 		return 1
 	}
